@@ -44,7 +44,7 @@ META = {
                         "step structure: one walker, propagator_cpmc + _slow with uhf_cpmc (2;1,1), (3;2,1) and ghf_cpmc (2;1,1), all 2^n field configurations; "
                         "propagator_cpmc_nn + _nn_slow with uhf_cpmc (2;1,1) and one bond (64 configurations: on-site fields, every Green's function update, "
                         "fast = slow symbolically; the 16-term bond sum identity only on exact rational instances)",
-               "thorough": "uhf_cpmc (4;2,2 identity-column trial), ghf_cpmc (3;2,1); step structure also ghf_cpmc (3;1,1), nn with ghf_cpmc and with 3 sites / 2 bonds"},
+               "thorough": "uhf_cpmc (4;2,2 identity-column trial), ghf_cpmc (3;2,1); step structure as in the quick tier"},
     "outside": "constraint-active branches (any ratio < 1e-8, weight < 1e-8 or > 100); more than one walker per step (walkers do not interact inside propagate: C14); norb > 4; "
                "the unbiasedness SUM over the 16 outcomes of one neighbour bond as a symbolic identity",
 }
@@ -1008,10 +1008,8 @@ def cases(tier):
     out.append({"type": "step", "family": "onsite", "kind": "ghf_cpmc", "norb": 2, "nelec": [1, 1]})
     out.append({"type": "step", "family": "onsite", "kind": "uhf_cpmc", "norb": 3, "nelec": [2, 1]})
     out.append({"type": "step", "family": "nn", "kind": "uhf_cpmc", "norb": 2, "nelec": [1, 1], "neighbors": [[0, 1]]})
-    if tier == "thorough":
-        out.append({"type": "step", "family": "onsite", "kind": "ghf_cpmc", "norb": 3, "nelec": [1, 1]})
-        out.append({"type": "step", "family": "nn", "kind": "ghf_cpmc", "norb": 2, "nelec": [1, 1], "neighbors": [[0, 1]]})
-        out.append({"type": "step", "family": "nn", "kind": "uhf_cpmc", "norb": 3, "nelec": [1, 1], "neighbors": [[0, 1], [1, 2]]})
+    # not run (measured): ghf_cpmc at (3;1,1) and the neighbour propagators with ghf_cpmc (> 20 min per case); 3 sites with 2 bonds would be
+    # 2^11 configurations x 2 propagators in one trace
     for prop in ("propagator_cpmc", "propagator_cpmc_nn"):
         out.append({"type": "onebody", "norb": 2, "nchol": 1, "prop": prop})
         out.append({"type": "hs", "prop": prop})
